@@ -16,7 +16,7 @@ func TimeoutFor(c Case) time.Duration {
 		return StallTimeout
 	}
 	for _, s := range c.Script {
-		if s == "stall" {
+		if s == "stall" || strings.HasPrefix(s, "ws") {
 			return StallTimeout
 		}
 	}
@@ -148,6 +148,54 @@ func FallbackTCPCases() []Case {
 			o.Script, o.Refuse = nil, 2
 			out = append(out, o)
 		}
+	}
+	return out
+}
+
+// WriteStallCases: the server answers DATA with 354 and stops reading (the client's writes block until the write
+// deadline: ws, or fail at once: wf) at every offset class of the content -- inside the headers, inside the body (large
+// message), at the final dot (short message: nothing is written before the final flush) -- for DialAndSend, and for
+// Dial / Send / (Send /) Reset / Close on a persistent connection, in cleartext and inside TLS.
+func WriteStallCases(pki *PKI) ([]Case, error) {
+	var out []Case
+	caps := []string{"8BITMIME", "STARTTLS"}
+	capsTLS := []string{"8BITMIME"}
+	for _, pol := range []string{"N", "M"} {
+		for _, kind := range []string{"das", "sess", "sess2"} {
+			base := Case{Kind: kind, Policy: pol, Auth: "NOAUTH", Custom: "-", Host: OtherMem, Mute: -1, Caps: caps, CapsTLS: capsTLS, HS: "ok", Msgs: []int{1}}
+			_, _, log, err := Baseline(pki, base)
+			if err != nil {
+				return nil, err
+			}
+			pd := -1
+			for i, e := range strings.Split(log, ",") {
+				if strings.HasPrefix(e, "DATA") && pd < 0 {
+					pd = i
+				}
+			}
+			if pd < 0 {
+				continue
+			}
+			for _, tok := range []string{"ws:100", "ws:150000", "wsl", "wf:100", "wf:150000", "wfl"} {
+				c := base
+				c.Script = append(OKs(pd), tok)
+				out = append(out, c)
+			}
+		}
+	}
+	return out, nil
+}
+
+// WriteStallTCPCases (thorough): the same over real loopback TCP -- the server stops reading after the 354 and the body
+// is larger than the socket buffers, so the kernel blocks the client's write
+func WriteStallTCPCases() []Case {
+	var out []Case
+	for _, kind := range []string{"das", "sess"} {
+		c := Case{Kind: kind, Policy: "O", Auth: "NOAUTH", Custom: "-", Host: "127.0.0.1", Mute: -1, Caps: []string{"8BITMIME"}, CapsTLS: []string{"8BITMIME"},
+			HS: "ok", Msgs: []int{1}, Fallback: true, Refuse: 1, TCP: true}
+		pd := 5 // GREETING EHLO NOOP MAIL RCPT DATA
+		c.Script = append(OKs(pd), "ws:0")
+		out = append(out, c)
 	}
 	return out
 }
